@@ -488,7 +488,53 @@ def _check_wake_clear(run, repo, world):
         if has(node, "wait"):
             st = st | {"woken"}
         return st
-    W = forward_worlds(cfg, transfer, None)
+    # The event may already be set when the watcher starts: _handle_read
+    # queues reports (and sets it) from the moment the task is created.  It
+    # is only ever set together with an append, so that start state comes
+    # with a non-empty queue: the test of the queue being empty goes one way
+    # until something has been popped.
+    QUEUE = "self._bus_watch_data"
+
+    def empty_edge(node):
+        """'T' / 'F': the edge of this test on which the queue is empty."""
+        if node.kind != "test" or node.ast is None:
+            return None
+        t = unparse(node.ast)
+        if t in ("len(%s) == 0" % QUEUE, "0 == len(%s)" % QUEUE,
+                 "len(%s) < 1" % QUEUE):
+            return "T"
+        if t in (QUEUE, "len(%s)" % QUEUE, "len(%s) != 0" % QUEUE,
+                 "len(%s) > 0" % QUEUE, "len(%s) >= 1" % QUEUE):
+            return "F"
+        return None
+
+    def transfer2(node, st):
+        st = transfer(node, st)
+        if node.ast is not None and node.kind in ("stmt", "test") and any(
+                isinstance(x, ast.Call) and unparse(x.func) in (
+                    QUEUE + ".pop", QUEUE + ".popleft", QUEUE + ".clear")
+                for x in _walk_no_nested(node.ast)):
+            st = st - {"nonempty"}
+        if node.kind == "stmt" and isinstance(node.ast, ast.Assign) and any(
+                unparse(t_) == QUEUE for t_ in node.ast.targets):
+            st = st - {"nonempty"}
+        return st
+
+    def edges(src, label, dst, st):
+        e = empty_edge(src)
+        if e is not None and label in ("T", "F"):
+            if label == e and "nonempty" in st:
+                return None
+            if label != e:
+                return st | {"nonempty"}
+        return st
+    W0 = forward_worlds(cfg, transfer2, edges)
+    W = forward_worlds(cfg, transfer2, edges,
+                       init=frozenset({"woken", "nonempty"}))
+    for nid, ws in W0.IN.items():
+        W.IN[nid] = W.IN.get(nid, frozenset()) | ws
+    W.origin.update({k: v for k, v in W0.origin.items()
+                     if k not in W.origin})
     waits = [n for n in cfg.reachable if has(n, "wait")]
     run.floor("waits on the watcher's data-available event", len(waits), 1)
     for n in waits:
@@ -496,8 +542,9 @@ def _check_wake_clear(run, repo, world):
         run.ob("R-REPORT", "%s#event-cleared-before-next-wait@L%s" % (
             Q, "timed" if "wait_for" in unparse(n.ast) else "untimed"),
             not bad,
-            "this wait on %s can be reached with the event still set by an "
-            "earlier wake-up (no clear() on the way): it returns at once "
+            "this wait on %s can be reached with the event still set - by "
+            "an earlier wake-up or by a report queued before the watcher "
+            "first waited - with no clear() on the way: it returns at once "
             "and the empty queue is read as an elapsed timeout: %s" % (
                 EV, path_str(W.trace(n, bad[0])[-8:], 8) if bad else ""),
             where(mod, n))
